@@ -8,7 +8,9 @@
    (Record = TRUE) and emits (cfg, schedule, expected launches / timer / final observation).  Every schedule is
    executed on the REAL RepeatingEngine.run() + monitor.CreateMonitor in the lock-step world
    (harness/world_c13.py) and launches (virtual time, producers already finished?), the kill-delay timer, isAlive(),
-   exitReason(), repeatRetries, ... are compared with the specification.
+   exitReason(), repeatRetries, ... are compared with the specification.  The families include transient filesystem
+   faults: the k-th canConsume() listing of a still output-less producer directory raises OSError (the directory is
+   moved away around the real os.listdir); a check that raised has seen nothing, so no launch may follow from it.
 3. code -> spec: seeded random schedules over a larger space (long tasks, long intervals, several outputs, external
    kill, kill delay) are executed on the real engine, every run is recorded as a trace and validated by TLC with
    spec/Repeating_trace.tla: "conform" (the run must be a behaviour of the spec; the named deviations needed to
@@ -114,6 +116,8 @@ def design_checks(chk, tier):
     for wname in (WITNESSES if thorough else WITNESSES[:3]):
         c = constants(intervals=(7, 30), retries=(0, 1, 3), die=(0, 4), modes=("repeatingProducer", "earlierStage"), durations=(2, 6), notify_by=12)
         jobs.append(("witness " + wname, wname, _cfg("Repeating_wit_%s.cfg" % wname, c + "SPECIFICATION Spec\nINVARIANT %s\n" % wname)))
+    c = constants(intervals=(3,), retries=(1,), die=(0,), modes=("plainProducer", "noCheck"), durations=(2,), notify_by=12, max_faults=2)
+    jobs.append(("witness W_FaultedCheck", "W_FaultedCheck", _cfg("Repeating_wit_W_FaultedCheck.cfg", c + "SPECIFICATION Spec\nINVARIANT W_FaultedCheck\n")))
     with ThreadPoolExecutor(max_workers=4) as ex:
         res = list(ex.map(lambda j: tlc.run_tlc("Repeating", j[2], deadlock=False, timeout=600, expect_violation=True, workers=2), jobs))
     for (what, want, _), r in zip(jobs, res):
@@ -136,7 +140,7 @@ def families(tier):
             ("modes", dict(intervals=(12, 3), retries=(2,), die=(0,), modes=("noCheck", "plainProducer", "earlierStage"), durations=(3,),
                            outcomes=("ok", "fail", "rexh"), notify_by=8)),
             ("forced", dict(intervals=(30,), retries=(3, 5), die=(0,), modes=("repeatingProducer",), durations=(3, 22), notify_by=6, window=False)),
-            ("fsfault", dict(intervals=(3, 7), retries=(0, 1, 2), die=(0, 9), modes=("plainProducer", "noCheck"), durations=(2,), notify_by=12,
+            ("fsfault", dict(intervals=(3, 7), retries=(0, 2), die=(0, 9), modes=("plainProducer", "noCheck"), durations=(2,), notify_by=8,
                              max_outputs=1, max_faults=3, window=False)),
         ]
     return [
